@@ -20,6 +20,8 @@ def guarded(conds, why):
 
 def rule(fn, kind, expr, ordn, guards, contract):
     g = set(guards)
+    if kind == 'loop' and contract.startswith('counted loop'):
+        return '.countedLoop'
     def need(*cs):
         for c in cs:
             if c not in g:
@@ -38,17 +40,19 @@ def rule(fn, kind, expr, ordn, guards, contract):
         if kind == 'make':
             return '.sizeFromLen "len(places)"'
         return thm('C04Parser', 'Kit.Cron.parse_never_panics', need('!(count < min || count > max)'))
+    if fn == 'cron.getBits' and kind == 'loop':
+        return thm('C04Parser', 'Kit.Cron.getBits_loop_terminates', [])
     if fn == 'cron.getRange':
         return thm('C04Parser', 'Kit.Cron.parse_never_panics', [])
     if fn == 'cron.parseDescriptor':
         return thm('C04Parser', 'Kit.Cron.parse_never_panics', need('strings.HasPrefix(descriptor, every)'))
     if fn == 'cron.SpecSchedule.Next':
-        if kind == 'goto':
+        if kind in ('goto', 'loop'):
             return thm('C04Next', 'Kit.CronSpec.next_terminates', [])
         return '.typeInvariant "SpecSchedule.Location is set by Parse to time.Local or a loaded zone and t.Location() never returns nil: the *time.Location arguments are non-nil"'
     # ---------------- time ----------------
     if fn == 'time.ParseISO8601Duration':
-        n = {'from[0]': ['!(l < 2)'], 'from[1:i]': ['!(i-1 < 1)'], 'from[start:i]': ['for i < l'], 'for without condition': ['!(l < 2)']}.get(expr)
+        n = {'from[0]': ['!(l < 2)'], 'from[1:i]': ['!(i-1 < 1)'], 'from[start:i]': ['for i < l'], 'for without condition': ['!(l < 2)'], 'for ; i < l; ': ['!(l < 2)']}.get(expr)
         if expr == 'from[i]':
             n = [['!(i == l)'], ['!(l < 2)'], ['for i < l']][ordn]
         return thm('C07', 'parseISO8601_never_panics', need(*n))
@@ -88,6 +92,8 @@ def rule(fn, kind, expr, ordn, guards, contract):
     if fn == 'crypto.expectedKeySize':
         return thm('C03', 'Kit.CryptoGlue.dispatch_never_out_of_range', [])
     # ---------------- crypto/pem ----------------
+    if fn == 'crypto/pem.DecodePEMCertificates' and kind == 'loop':
+        return thm('C07', 'decodeCertificates_terminates', [])
     if fn == 'crypto/pem.DecodePEMCertificatesChain':
         return thm('C07', 'chainLoop_never_panics', need('for i < len(certs)-1'))
     # ---------------- aeskw ----------------
@@ -147,11 +153,11 @@ def rule(fn, kind, expr, ordn, guards, contract):
             return '.typeInvariant "BufPool.New returns *[]byte and only such values are Put back (C08)"'
         if fn.endswith('processSegments'):
             n = {'(*buf)[0]': ['hasCarryover'], '(*buf)[n:(segmentSize + 1)]': ['for n < (segmentSize+1) && err == nil'],
-                 '(*buf)[n-1]': ['n > segmentSize'], '(*buf)[:n]': ['!(n == 0)']}[expr]
-            return guarded(need(*n), 'the pooled buffer has SegmentSize+SegmentOverhead+1 bytes and segmentSize <= SegmentSize+SegmentOverhead; n stays <= segmentSize+1 (reads are into buf[n:segmentSize+1])')
+                 '(*buf)[n-1]': ['n > segmentSize'], '(*buf)[:n]': ['!(n == 0)']}.get(expr, [])
+            return thm('C01NoPanic', 'Kit.Enc.C01NoPanic.processSegments_never_panics', need(*n))
         n = {'(*buf)[n:SegmentSize]': ['!(n == ul)'], '(*buf)[i]': ['for i < (n+nn) && newlines < 3'], '(*buf)[lastNewline:i]': ['!(i <= lastNewline)'],
-             'make([]byte, n-lastNewline)': ['n > lastNewline'], '(*buf)[(lastNewline):n]': ['n > lastNewline']}[expr]
-        return guarded(need(*n), 'n <= SegmentSize < len(buf) because reads are into buf[n:SegmentSize]; lastNewline <= i < n+nn')
+             'make([]byte, n-lastNewline)': ['n > lastNewline'], '(*buf)[(lastNewline):n]': ['n > lastNewline']}.get(expr, [])
+        return thm('C01NoPanic', 'Kit.Enc.C01NoPanic.readHeader_never_panics', need(*n))
     # ---------------- metadata ----------------
     if fn == 'metadata.toTimeDurationHookFunc':
         if kind == 'call':
@@ -180,6 +186,8 @@ def rule(fn, kind, expr, ordn, guards, contract):
     if fn == 'config.decodeString':
         if expr in ('t.Kind()', 'f.Kind()') and not any('decoder != nil' in c for c in guards):
             return '.callerContract "f and t are the non-nil reflect.Types mapstructure passes to a DecodeHookFuncType"'
+        if kind == 'loop':
+            return thm('C07Sites', 'Kit.C07.unwrapIface_terminates', [])
         if expr == 'reflect.ValueOf(data).Elem()':
             return thm('C07Sites', 'Kit.C07.decodeString_reflect_sites', need('f.Kind() == reflect.Ptr'))
         if expr == 'inner.IsNil()':
